@@ -170,15 +170,27 @@ def decide(pid, tier, seed, args, ev):
                 inconclusive.append('%s: %s' % (r['harness'], st))
             continue
         if st == 'success':
+            bad = [d for d, s in r.get('covers', []) if s != 'SATISFIED']
+            if bad and r.get('stretch'):
+                # a thorough-only harness whose reachability witnesses are not all met is
+                # not counted at all (nothing is claimed for it)
+                not_completed.append('%s: witnesses not reached within the bound %r - not counted (bound: %s)' % (r['harness'], bad, r.get('bound')))
+                continue
             obligations += r.get('checks_total', 0)
             discharged += r.get('checks_total', 0) - r.get('checks_failed', 0)
             nontrivial += r.get('user_checks', 0)
-            bad = [d for d, s in r.get('covers', []) if s != 'SATISFIED']
             if bad:
                 inconclusive.append('vacuity: covers not satisfied in %s: %r' % (r['harness'], bad))
             for pb in [p for p in r.get('playback', []) if p['kind'] == 'cover'][:3]:
                 cov['samples'].append(dict(harness=r['harness'], what='cover: ' + pb['description'], values_hex=pb['hex'], values=pb.get('shown')))
         elif st == 'failed':
+            unw = [c for c in r.get('failed_checks', []) if 'unwinding assertion' in c['description']]
+            if unw and r.get('stretch'):
+                # the unwinding bound of a thorough-only harness is too small for its
+                # stated byte bound: every verdict of that run is void, nothing is
+                # claimed for it; the mandatory harnesses still have to pass
+                not_completed.append('%s: unwinding bound too small at %s - verdicts void (bound: %s)' % (r['harness'], unw[0]['location'], r.get('bound')))
+                continue
             obligations += r.get('checks_total', 0)
             discharged += r.get('checks_total', 0) - r.get('checks_failed', 0)
             handle_failure(ctx, pid, r, violations, inconclusive, known_hits)
